@@ -279,7 +279,7 @@ def sendResOf : Except Gen.TrX.ExtErr Data → ExtEvent.SendRes
 
 /-- the model's `send` IS the body of `ExtEvent.send` translated from the source; the omitted positional
     argument is the default `UNDEF` of the signature (an explicit value is never UNDEF) -/
-theorem translated_send_is_model (ready : Bool) (dflt : String) (value : Option Val) (data : Data)
+theorem translated_ext_send_is_model (ready : Bool) (dflt : String) (value : Option Val) (data : Data)
     (hv : ∀ v, value = some v → v.isUndef = false) :
     sendResOf (Gen.TrX.extSend ready dflt (value.getD .undef) data) = ExtEvent.send ready dflt value data := by
   have hp : Gen.extPrefix = "_ext_" := by decide
